@@ -91,6 +91,9 @@ def main():
         ok0, out0 = run_demo(wt, src)
         meta["demo_passes_without_patch"] = ok0
         rc, out = sh(["git", "-C", wt, "apply", os.path.join(src, "patch.diff")])
+        if rc != 0:  # written against an earlier HEAD (before a later fix: commit): merge
+            rc, out = sh(["git", "-C", wt, "apply", "--3way", os.path.join(src, "patch.diff")])
+            sh(["git", "-C", wt, "reset", "-q"])
         if rc != 0:
             meta["error"] = "patch does not apply: " + out[-300:]
             print(json.dumps(meta, indent=1)); return 2
